@@ -47,6 +47,7 @@ package tcp
 // in order, S/E = that range's own bounds) + ")". The SYN variant appends " and tcp[13] == 18".
 //@ func BPFFilter
 //@   sig r
+//@   locals sb: strings.Builder ;; ranges: []string ;; pr: *github.com/v-byte-cpu/sx/pkg/scan.PortRange
 //@   props C03
 //@   modifies nothing
 //@   observe (*strings.Builder).WriteString, (*strings.Builder).WriteRune, (*strings.Builder).String, (*net.IPNet).String, fmt.Sprintf, strings.Join
@@ -80,6 +81,7 @@ package tcp
 //@ pred ethhdr(e *layers.Ethernet, r *scan.Request) = fresh(e) && e.SrcMAC == r.SrcMAC && e.DstMAC == r.DstMAC && e.EthernetType == 2048
 //@ func (*PacketFiller).Fill
 //@   sig f, packet, r
+//@   locals ip: *github.com/google/gopacket/layers.IPv4 ;; tcp: *github.com/google/gopacket/layers.TCP ;; opt: github.com/google/gopacket.SerializeOptions ;; eth: *github.com/google/gopacket/layers.Ethernet
 //@   props C05 C11 C17 C01 C02 C19 C07 C13
 //@   observe rand.Intn, rand.Uint32, SetNetworkLayerForChecksum, gopacket.SerializeLayers
 //@   entry row cksumerr: [call rand.Intn(65535) as (id0) ; call rand.Intn(28232) as (sp0) ; call rand.Uint32() as (sq) ; call SetNetworkLayerForChecksum(bind_ck, bind_n) as (ce)] when ce != nil && ret == ce -> exit
@@ -149,6 +151,7 @@ package tcp
 // constructor: a zero filler, then the options applied in order, nothing else
 //@ func NewPacketFiller
 //@   sig opts
+//@   locals f: *PacketFiller ;; o: PacketFillerOption
 //@   props C05 C01 C02 C11 C17 C19 C07 C13
 //@   observe PacketFillerOption
 //@   entry row init:  [] when !f.SYN && !f.ACK && !f.FIN && !f.RST && !f.PSH && !f.URG && !f.ECE && !f.CWR && !f.NS && !f.vpnMode -> loop 0
@@ -174,6 +177,7 @@ package tcp
 //@   ensures s.vpnMode == vpnMode
 //@ func NewScanMethod
 //@   sig scanType, psrc, results, opts
+//@   locals sm: *ScanMethod ;; o: ScanMethodOption ;; layerType: github.com/google/gopacket.LayerType ;; parser: *github.com/google/gopacket.DecodingLayerParser
 //@   props C06 C03 C14 C16 C20
 //@   observe ScanMethodOption, gopacket.NewDecodingLayerParser
 //@   entry row init:  [] when sm.PacketSource == psrc && sm.scanType == scanType && sm.results == results && sm.pktFilter == TrueFilter && sm.pktFlags == AllFlags && !sm.vpnMode -> loop 0
